@@ -36,7 +36,7 @@ class AggregateSpectroscopy(AggregateBase):
 
         ham = self.get_Hamiltonian()
         return self.liouville_pathways_3T(ptype, dtol=dtol, ptol=ptol, lab=lab,
-                                eUt2=qr.qm.SOpUnity(dim=ham.dim),
+                                eUt=qr.qm.SOpUnity(dim=ham.dim), ham=ham,
                                 verbose=verbose)
         #
         # Rest is ignored for now (may be valuabel in the future)
